@@ -158,6 +158,10 @@ def run(ctx):
             if np.array_equal(x, y): continue
             if qslst.psnr(y, x) == float('inf'): viol('C18:psnr:unequal' + tag, 'psnr is inf for unequal arrays', {'x': x.tolist(), 'y': y.tolist()})
             if qslst.relative_error(y, x) == 0.0: viol('C18:relerr:unequal' + tag, 'relative_error is 0 for unequal arrays', {'x': x.tolist(), 'y': y.tolist()})
+        # a zero reference: the relative error of a non-zero estimate is inf (documented), of a zero estimate 0
+        if np.any(x != 0):
+            rz = qslst.relative_error(x.copy(), np.zeros(shp))
+            if rz != float('inf'): viol('C18:relerr:zero-reference', f'relative_error(x, 0) = {rz!r} for a non-zero x (documented: inf; the arrays are not equal)', {'x': x.tolist(), 'x_ref': np.zeros(shp).tolist()}, rz, 'inf')
         ctx.count(('metric', x.tobytes()), True)
     # differences that are the same number in every entry (a brightness offset): the mean of the difference must not be removed
     for shp in ((3, 5), (1, 7), (6, 1), (4, 4)):
